@@ -112,6 +112,7 @@ class Runner:
         kf = json.load(open(os.path.join(ROOT, 'known_findings.json')))
         known = [f for f in kf.get('findings', []) if f.get('property') == self.pid]
         new = []; lines = []
+        shutil.rmtree(os.path.join(OUT, 'replays', self.pid), ignore_errors=True)      # replays always describe the latest run of this property
         for v in self.violations:
             hit = [f for f in known if f.get('key') == v['key']]
             if hit:
